@@ -786,7 +786,13 @@ impl Call {
                     if end == 0 {
                         return Ok(vec![]);
                     }
-                    fb.fill_interleaved(&a.samples[..end * a.channels]).map_err(|e| format!("{e}"))?;
+                    // the second fill goes through the delivery path of the case (integers or bytes)
+                    if matches!(c.mode, FillMode::Bytes | FillMode::BytesShort) {
+                        let by = gen::to_le_bytes(&a.samples[..end * a.channels], (a.bps + 7) / 8);
+                        fb.fill_le_bytes(&by, (a.bps + 7) / 8).map_err(|e| format!("{e}"))?;
+                    } else {
+                        fb.fill_interleaved(&a.samples[..end * a.channels]).map_err(|e| format!("{e}"))?;
+                    }
                     let si = flacenc::component::StreamInfo::new(a.rate, a.channels, a.bps).map_err(|e| format!("{e}"))?;
                     let f = flacenc::encode_fixed_size_frame(&v, &fb, 0, &si).map_err(|e| format!("{e}"))?;
                     enc::to_bytes(&f).map_err(|e| format!("{e:?}"))
@@ -800,7 +806,14 @@ impl Call {
                         return Ok(vec![]);
                     }
                     let mut fb = flacenc::source::FrameBuf::with_size(a.channels, c.block).map_err(|e| format!("{e}"))?;
-                    fb.fill_interleaved(&a.samples[start * a.channels..end * a.channels]).map_err(|e| format!("{e}"))?;
+                    // through the delivery path of the case (a byte fill cannot carry a value outside
+                    // the byte width, so the two paths may legitimately differ on invalid input)
+                    if matches!(c.mode, FillMode::Bytes | FillMode::BytesShort) {
+                        let by = gen::to_le_bytes(&a.samples[start * a.channels..end * a.channels], (a.bps + 7) / 8);
+                        fb.fill_le_bytes(&by, (a.bps + 7) / 8).map_err(|e| format!("{e}"))?;
+                    } else {
+                        fb.fill_interleaved(&a.samples[start * a.channels..end * a.channels]).map_err(|e| format!("{e}"))?;
+                    }
                     let si = flacenc::component::StreamInfo::new(a.rate, a.channels, a.bps).map_err(|e| format!("{e}"))?;
                     let f = flacenc::encode_fixed_size_frame(&v, &fb, *k, &si).map_err(|e| format!("{e}"))?;
                     enc::to_bytes(&f).map_err(|e| format!("{e:?}"))
@@ -838,6 +851,13 @@ fn history_pool(rng: &mut Rng) -> Vec<Case> {
             for (t, x) in ch.iter().enumerate() {
                 samples[t * channels + c] = *x;
             }
+        }
+        // one pool case in eight holds a sample outside its width in its first block: every call
+        // on it must fail the same way in a history as alone (a verdict cached from an earlier,
+        // valid use of a buffer or of the thread must not apply)
+        if rng.chance(1, 8) && len > 3 {
+            let pos = rng.usize_below(len.min(block)) * channels + rng.usize_below(channels);
+            samples[pos] = if bps < 24 { 1 << (bps - 1) } else { i32::MAX };
         }
         let mut cfg = gen::gen_config(rng, &ConfigOpts { multithread: Some(false), min_max_parameter: 0 });
         cfg.multithread = rng.chance(1, 5);
